@@ -1,6 +1,6 @@
 #!/usr/bin/env python3
-"""`lake` under the shared build lock (use this instead of calling lake directly when several
-checks / people build in the same tree):  python3 tools/lk.py build SophiaProofs.Props.C07"""
+"""`lake` from /verif/lean after regenerating lakefile/roots:  python3 tools/lk.py build SophiaProofs.Props.C07 smd_C07
+(builds of different properties touch disjoint modules; do not edit shared modules while others build)"""
 import fcntl
 import os
 import subprocess
@@ -9,7 +9,7 @@ import sys
 HERE = os.path.dirname(os.path.abspath(__file__))
 VERIF = os.path.dirname(HERE)
 os.makedirs(os.path.join(VERIF, ".cache"), exist_ok=True)
-subprocess.call([sys.executable, os.path.join(HERE, "genlean.py")])
-with open(os.path.join(VERIF, ".cache", "lake.lock"), "w") as f:
+with open(os.path.join(VERIF, ".cache", "genlean.lock"), "w") as f:
     fcntl.flock(f, fcntl.LOCK_EX)
-    sys.exit(subprocess.call(["lake"] + sys.argv[1:], cwd=os.path.join(VERIF, "lean")))
+    subprocess.call([sys.executable, os.path.join(HERE, "genlean.py")])
+sys.exit(subprocess.call(["lake"] + sys.argv[1:], cwd=os.path.join(VERIF, "lean")))
